@@ -25,7 +25,8 @@ Scalars == { IntV(0), IntV(7), IntV(-3), Atom("int", "i62"), Atom("int", "mi63")
              Bool(TRUE), Bool(FALSE), Str("hello"), Str("a_b 1") }
 Lists == { Lst(<<IntV(1), IntV(-2)>>), Lst(<<Fl(1, 2), IntV(3), Bool(TRUE)>>), Lst(<<Str("x"), Str("yz")>>), Lst(<<Cx(1, 1, -2, 1), Fl(-1, 4)>>), Lst(<<Atom("float", "tiny"), IntV(0)>>) }
 Syms == { Sym(TPar("a")), Sym(TBin("*", TNum(Fl(1, 2)), TPar("al"))), Sym(TBin("+", TBin("*", TNum(IntV(2)), TPar("a")), TNeg(TPar("ab")))),
-          Sym(TBin("/", TNum(Fl(27, 50)), TBin("**", TPar("x"), TNum(IntV(2))))) }
+          Sym(TBin("/", TNum(Fl(27, 50)), TBin("**", TPar("x"), TNum(IntV(2))))),
+          Sym(TNeg(TBin("**", TPar("x"), TNum(IntV(2))))), Sym(TBin("-", TNum(IntV(1)), TBin("**", TPar("a"), TNum(IntV(3))))) }
 PosVals == Scalars \cup Arrays \cup Syms
 KwVals == Scalars \cup Arrays \cup Syms \cup Lists
 OptVals == {IntV(100), Fl(1, 5), Bool(TRUE), Str("hi"), Cx(1, 1, -2, 1), Lst(<<IntV(1), Fl(5, 2)>>), Lst(<<Str("s"), Bool(FALSE)>>), Atom("float", "huge")}
@@ -49,8 +50,12 @@ MkProg(tg, ty, ops) == [name |-> "prog", version |-> "1.0", target |-> tg, type 
                         modes |-> UNION {{ops[i].modes[j] : j \in 1..Len(ops[i].modes)} : i \in 1..Len(ops)}, vars |-> <<>>,
                         params |-> SetToSeq(UNION {OpPars(ops[i]) : i \in 1..Len(ops)})]
 NoFS9(f) == NoFile
+Types == {[name |-> "", opts |-> <<>>], [name |-> "sampling", opts |-> <<>>], [name |-> "foo", opts |-> <<Kv("copies", IntV(2))>>]}
+SomeTargets == {[name |-> "", opts |-> <<>>], [name |-> "chip0", opts |-> <<>>],
+                [name |-> "X8_01", opts |-> <<Kv("shots", IntV(10)), Kv("label", Str("run")), Kv("cut", Lst(<<IntV(1), Fl(5, 2), Bool(TRUE)>>))>>]}
 VARIABLES p, done
 Init == done = FALSE /\ \/ \E o \in Ops, tg \in Targets : p = MkProg(tg, [name |-> "", opts |-> <<>>], <<o>>)
+                        \/ \E tg \in SomeTargets, ty \in Types, o \in {x \in Ops : x.op \in {"Vac", "K"}} : p = MkProg(tg, ty, <<o>>)
                         \/ \E o \in TwoArrayOps : p = MkProg([name |-> "", opts |-> <<>>], [name |-> "", opts |-> <<>>], <<o>>)
                         \/ \E o1 \in TwoArrayOps, o2 \in TwoArrayOps : p = MkProg([name |-> "", opts |-> <<>>], [name |-> "", opts |-> <<>>], <<o1, o2>>)
                         \/ \E o \in Ops : p = MkProg([name |-> "", opts |-> <<>>], [name |-> "foo", opts |-> <<Kv("copies", IntV(2))>>], <<o>>)
